@@ -18,6 +18,10 @@ def cases(draw):
     for L in spec['layers']:
         if draw(st.booleans()):
             L['hooks'] = sorted(set(L['hooks']) | {'setUp', 'tearDown'}, key=gen.HOOKS.index)
+    if draw(st.integers(0, 3)) == 0:
+        # free-text layer names of which one, read as a regular expression, matches another one
+        for L, nm in zip(spec['layers'], draw(st.permutations(CONFUSABLE))):
+            L['name'] = nm
     lnames = [L['name'] for L in spec['layers']]
     mnames = [m['name'] for m in spec['modules']]
     tnames = sorted({t['n'] for _, t in gen.iter_tests(spec)})
@@ -67,6 +71,9 @@ def cases(draw):
     mode = draw(st.sampled_from(['j2', 'j3', 'j1-resume', 'resume']))
     return {'spec': spec, 'opts': opts, 'mode': mode, 'verbose': draw(st.integers(0, 2)),
             'relpath': draw(st.sampled_from([False, False, True]))}
+
+
+CONFUSABLE = ['L.A', 'LXA', 'L+', 'L', 'LL', 'L(1)', 'L1', 'L[A]', 'LA', 'L|A', 'L.*', 'L?A']
 
 
 def pkg_args(spec, opts):
